@@ -1,6 +1,6 @@
-\* exhaustive: hex (2 orientations x 3 pitches x 2 offsets x 2 metadata), Cartesian (2 variants x 3 sizes x 2 metadata),
-\* axial and theta-R-Z bounds grids (2 offsets each)
-CONSTANTS MaxLevel = 12
+\* exhaustive (quick): hex (2 orientations, float- and int-built), Cartesian (2 variants; factory, int factory, int
+\* constructor), axial and theta-R-Z bounds grids; 3 pitch values per class; backUp stack depth 1; one snapshot
+CONSTANTS MaxLevel = 30  MaxStack = 1  Rich = FALSE
 INIT Init
 NEXT Next
 CONSTRAINT Bound
@@ -10,4 +10,6 @@ INVARIANT CellsAreAffine
 INVARIANT ReduceDetermines
 INVARIANT PitchRescalesOnly
 PROPERTY RefusalsChangeNothing
+PROPERTY OnlySnapshotTouchesTaken
+PROPERTY BackupDiscipline
 CHECK_DEADLOCK FALSE
